@@ -87,6 +87,7 @@ inductive Expr where
   | and_ (a b : Expr)
   | or_ (a b : Expr)
   | cmp (op : Nat) (a b : Expr)         -- 0 `==`  1 `!=`  2 `<`  3 `<=`  4 `>`  5 `>=`   (ints; `==`/`!=` also atoms)
+  | cond (c a b : Expr)                 -- `a if c else b`
   | call (f : Nat) (args : Expr)        -- builtin (< 100) or external (≥ 100) applied to an argument list
   | nil                                 -- argument list / display
   | cons (a rest : Expr)
@@ -125,6 +126,7 @@ abbrev bValues : Nat := 12      -- d.values() as a list
 abbrev bConcat : Nat := 13      -- [*a, *b]
 abbrev bDictOfTypes : Nat := 14 -- {type(e): e for e in xs}   (external `typeOf` supplies type(e))
 abbrev bType : Nat := 15        -- type(v) for exception instances
+abbrev bGet : Nat := 16         -- d.get(k) / d.get(k, default)
 
 /-- interpreter state: locals, fields of `self`, the external world, the exception being handled (for bare `raise`),
 and a counter for fresh identities -/
@@ -181,6 +183,8 @@ def builtin {W : Type} (f : Nat) (args : List Val) (s : St W) : R W :=
   | 12, [.dict kv] => .ok (.list (kv.map (·.2))) s
   | 13, [.list xs, .list ys] => .ok (.list (xs ++ ys)) s
   | 15, [.exc c _] => .ok (.cls c) s
+  | 16, [.dict kv, k] => .ok ((assocGet kv k).getD .none) s
+  | 16, [.dict kv, k, d] => .ok ((assocGet kv k).getD d) s
   | _, _ => .stuck
 
 def cmpInt (op : Nat) (a b : Int) : Option Bool :=
@@ -219,6 +223,10 @@ def eval {W : Type} (ext : World W) : Expr → St W → R W
          | .int x, .int y => (match cmpInt op x y with | some r => .ok (.bool r) s2 | none => .stuck)
          | _, _ => if op = 0 then .ok (.bool (va.same vb)) s2 else if op = 1 then .ok (.bool (!va.same vb)) s2 else .stuck)
       | r => r)
+    | r => r
+  | .cond c a b, s =>
+    match eval ext c s with
+    | .ok vc s1 => if vc.truthy then eval ext a s1 else eval ext b s1
     | r => r
   | .nil, s => .ok (.list []) s
   | .cons a r, s =>
